@@ -3,7 +3,7 @@
 // Built by checks/C16.py with clang++ -fsanitize=thread -O1 -g from
 // VERIF_REPO/include, together with routes.cpp.
 //
-//   tsan_driver [--threads N] [--iters M] [--mode main|selftest|vmap-registered|
+//   tsan_driver [--threads N] [--iters M] [--seed S] [--mode main|selftest|vmap-registered|
 //                vmap-unregistered] [--no-foreign]
 //
 // main: update() every policy shape once; compute the table of answers of
@@ -185,14 +185,40 @@ struct world {
     objects<c16::ind_policy> ind;
 };
 
-static void run_all(const world& w, answers& out) {
+constexpr int n_shapes = 5;
+
+static void run_shape(int shape, const world& w, answers& out) {
     out.clear();
-    run_rel(w.rel, out);
-    run_dbg(w.dbg, out);
-    run_nohash(w.nohash, out);
-    run_vmap(w.vmap, out);
-    run_ind(w.ind, out);
+    switch (shape) {
+    case 0:
+        run_rel(w.rel, out);
+        break;
+    case 1:
+        run_dbg(w.dbg, out);
+        break;
+    case 2:
+        run_nohash(w.nohash, out);
+        break;
+    case 3:
+        run_vmap(w.vmap, out);
+        break;
+    default:
+        run_ind(w.ind, out);
+        break;
+    }
 }
+
+// xorshift64*: the order in which a thread visits the shapes, and its short
+// pauses, derive from --seed (the schedule itself is the operating system's)
+struct prng {
+    std::uint64_t s;
+    std::uint64_t next() {
+        s ^= s >> 12;
+        s ^= s << 25;
+        s ^= s >> 27;
+        return s * 0x2545F4914F6CDD1DULL;
+    }
+};
 
 // ---------------------------------------------------------------- vmap experiment
 template<int N>
@@ -254,7 +280,7 @@ static int vmap_experiment(bool registered, int threads, int iters) {
 
 // ---------------------------------------------------------------- main
 int main(int argc, char** argv) {
-    int threads = 8, iters = 200;
+    int threads = 8, iters = 200, seed = 1;
     std::string mode = "main";
     bool foreign = true;
     for (int i = 1; i < argc; ++i) {
@@ -263,6 +289,8 @@ int main(int argc, char** argv) {
             threads = std::atoi(argv[++i]);
         } else if (a == "--iters" && i + 1 < argc) {
             iters = std::atoi(argv[++i]);
+        } else if (a == "--seed" && i + 1 < argc) {
+            seed = std::atoi(argv[++i]);
         } else if (a == "--mode" && i + 1 < argc) {
             mode = argv[++i];
         } else if (a == "--no-foreign") {
@@ -285,13 +313,15 @@ int main(int argc, char** argv) {
     update<c16::foreign_policy>();
 
     world w;
-    answers table;
-    run_all(w, table);
-    // the table must be reproducible single-threaded before anything else
-    {
+    answers table[n_shapes];
+    std::size_t per_iteration = 0;
+    for (int sh = 0; sh < n_shapes; ++sh) {
+        run_shape(sh, w, table[sh]);
+        per_iteration += table[sh].size();
+        // the table must be reproducible single-threaded before anything else
         answers again;
-        run_all(w, again);
-        if (again != table) {
+        run_shape(sh, w, again);
+        if (again != table[sh]) {
             std::printf("RESULT mismatch sequential-table-not-reproducible\n");
             return 0;
         }
@@ -305,21 +335,31 @@ int main(int argc, char** argv) {
         foreign_updates{0};
     std::vector<std::thread> ts;
     for (int t = 0; t < threads; ++t) {
-        ts.emplace_back([&] {
+        ts.emplace_back([&, t] {
             answers mine;
-            mine.reserve(table.size());
+            prng rng{(std::uint64_t)seed * 0x9E3779B97F4A7C15ULL + t + 1};
             while (!go.load()) {
             }
             for (int it = 0; it < iters; ++it) {
-                run_all(w, mine);
-                if (mine != table) {
-                    ++mismatches;
-                    for (std::size_t k = 0;
-                         k < mine.size() && k < table.size(); ++k) {
-                        if (mine[k] != table[k]) {
-                            long exp = -1;
-                            first_bad.compare_exchange_strong(exp, (long)k);
-                            break;
+                int order[n_shapes] = {0, 1, 2, 3, 4};
+                for (int k = n_shapes - 1; k > 0; --k) {
+                    std::swap(order[k], order[rng.next() % (k + 1)]);
+                }
+                for (int sh : order) {
+                    if (rng.next() % 64 == 0) {
+                        std::this_thread::yield();
+                    }
+                    run_shape(sh, w, mine);
+                    if (mine != table[sh]) {
+                        ++mismatches;
+                        for (std::size_t k = 0;
+                             k < mine.size() && k < table[sh].size(); ++k) {
+                            if (mine[k] != table[sh][k]) {
+                                long exp = -1;
+                                first_bad.compare_exchange_strong(
+                                    exp, (long)(sh * 100000 + k));
+                                break;
+                            }
                         }
                     }
                 }
@@ -354,14 +394,14 @@ int main(int argc, char** argv) {
         foreign_updates.load(), c16_injected_counter);
     if (mismatches.load() == 0 && foreign_bad.load() == 0) {
         std::printf(
-            "RESULT ok threads=%d iters=%d answers_per_iteration=%zu "
+            "RESULT ok threads=%d iters=%d seed=%d answers_per_iteration=%zu "
             "comparisons=%zu\n",
-            threads, iters, table.size(),
-            table.size() * (std::size_t)threads * (std::size_t)iters);
+            threads, iters, seed, per_iteration,
+            per_iteration * (std::size_t)threads * (std::size_t)iters);
     } else {
         std::printf(
             "RESULT mismatch threads=%d iters=%d bad_iterations=%ld "
-            "first_bad_answer_index=%ld foreign_bad=%ld\n",
+            "first_bad_answer(shape*100000+index)=%ld foreign_bad=%ld\n",
             threads, iters, mismatches.load(), first_bad.load(),
             foreign_bad.load());
     }
